@@ -540,6 +540,42 @@ def run_config(hsize, splice):
                 ended.append(c)
                 segments.append([c])
     checkpoint(px, cfgname, hsize, ended, segments, judged)
+    # (2b) clients of the TLS listener whose TLS handshake does not complete: a connection gets its id after the
+    #      handshake, so these are not connections - nothing in /live while they dawdle, no history entry, no log line
+    #      (the next checkpoint counts every entry and matches every log line to a connection a client made)
+    def tls_failure(kind):
+        s = socket.create_connection(('127.0.0.1', p['https']), timeout=5)
+        src = '%s:%d' % s.getsockname()
+        try:
+            if kind == 'plain-text CONNECT':
+                s.sendall(f'CONNECT 127.0.0.1:{echo.port} HTTP/1.1\r\nHost: x\r\n\r\n'.encode())
+            elif kind == 'garbage':
+                s.sendall(b'\x16\x03\x01\x00\x05hello-this-is-no-client-hello' * 3)
+            elif kind == 'truncated ClientHello':
+                s.sendall(b'\x16\x03\x01\x02\x00\x01\x00\x01\xfc\x03\x03' + b'\x11' * 40)
+            elif kind == 'certificate the client does not trust':
+                try:
+                    ssl.create_default_context().wrap_socket(s, server_hostname='localhost')
+                except (ssl.SSLError, OSError):
+                    pass
+            # 'connect and close': nothing sent
+            time.sleep(0.25)
+            listed = [r for r in live(px) if key(r) == ('https', src)]
+            if listed:
+                chk.violation('accounting.live', f'listed-before-tls-handshake:{kind}', f'{cfgname}: a client of the TLS listener that has not completed the TLS handshake ({kind}) is listed in /live with id {listed[0].get("id")}', {'config': cfgname, 'kind': kind})
+            if kind not in ('truncated ClientHello', 'certificate the client does not trust'):
+                try: recv_until_eof(s, 2)
+                except OSError: pass
+        finally:
+            try: s.close()
+            except OSError: pass
+    for kind in ('plain-text CONNECT', 'garbage', 'truncated ClientHello', 'connect and close', 'certificate the client does not trust'):
+        for _ in range(2):
+            tls_failure(kind)
+            evals += 1
+            distinct.add(('tls-failure', kind))
+    one('https', 'relay')
+    checkpoint(px, cfgname, hsize, ended, segments, judged)
     # (3) burst with rotation in the middle
     for rot in ('api', 'signal'):
         burst = []
@@ -627,6 +663,6 @@ for o in (echo, echo2, echo3, bye, sink, fakeh, fakes):
 if evals < 300 or len(distinct) < 30:
     machinery(f'vacuous: evals={evals} distinct={len(distinct)}')
 cov = {'evaluations': evals, 'distinct_nontrivial': len(distinct), 'transitions': evals, 'traces_validated_against_impl': evals, 'connections': sum(r for r in results),
-       'rule': f'per configuration (historySize, useSplice) in {configs}: one long history on the real binary: (1) ordered pairs over the alphabet {KINDS} x [http, https, socks5, socks4, reverse] (quick: every operation after every fifth one; thorough: all pairs), strictly sequential; (2) trios held open together and closed in all 6 orders with /live compared at each step; (4) 6 MiB pushed at an origin with an 8 KiB receive buffer that reads late and in 3000-byte pieces (byte counters under back-pressure, both I/O modes); (3) two bursts of concurrent mixed connections with the access log renamed and reopened (POST /logrotate, SIGUSR1) three times in the middle; (3b) 300 connections (held tunnels and silent connections on four listeners) closed within one collector pass. Checkpoints compare /live, /history (length, newest-first by known end order, distinct ids) and the access log files (exactly one line per connection, truthful listener/source/target/connector, lifecycle grammar with one terminal state, byte counters) with what clients and origins did',
+       'rule': f'per configuration (historySize, useSplice) in {configs}: one long history on the real binary: (1) ordered pairs over the alphabet {KINDS} x [http, https, socks5, socks4, reverse] (quick: every operation after every fifth one; thorough: all pairs), strictly sequential; (2) trios held open together and closed in all 6 orders with /live compared at each step; (2b) ten clients of the TLS listener whose TLS handshake fails (plain text, garbage, truncated ClientHello, connect and close, untrusted certificate): not listed, no entry, no line; (4) 6 MiB pushed at an origin with an 8 KiB receive buffer that reads late and in 3000-byte pieces (byte counters under back-pressure, both I/O modes); (3) two bursts of concurrent mixed connections with the access log renamed and reopened (POST /logrotate, SIGUSR1) three times in the middle; (3b) 300 connections (held tunnels and silent connections on four listeners) closed within one collector pass. Checkpoints compare /live, /history (length, newest-first by known end order, distinct ids) and the access log files (exactly one line per connection, truthful listener/source/target/connector, lifecycle grammar with one terminal state, byte counters) with what clients and origins did',
        'schedule_control': 'kernel', 'samples': samples}
 sys.exit(chk.finish('model_checking', cov, ['E4 part: real loopback sockets, kernel scheduling uncontrolled; buffered log lines are flushed by a reopen before the log is read; connections are matched to records by listener + client address; UDP sessions and QUIC/TPROXY listeners are not part of this history']))
